@@ -1,5 +1,5 @@
 (* C10 with text tags configured, for documents in which no text-tag element has element children: rejecting every marked change gives the left document (attribute values aside, as in C10_reject_differ).
-   Corollary of C08_C09_C10_flat_texttags (Properties/C08_flat_texttags.v), where the statement is explained.
+   This is a corollary of C08_C09_C10_flat_texttags (Properties/C08_flat_texttags.v), where the statement is explained.
    This file contains statements only. *)
 From Coq Require Import List NArith ZArith Bool.
 Import ListNotations.
